@@ -266,7 +266,18 @@ def load_known_findings(prop: str):
 # ---------------------------------------------------------------------------
 
 
-def _worker_init(x64: bool):
+def _worker_init(x64: bool, counter=None):
+    # pin every worker to one core BEFORE jax is imported: XLA sizes its thread pools from the schedulable CPUs,
+    # and 16 workers x 16 XLA threads oversubscribe the machine badly otherwise
+    if counter is not None and hasattr(os, "sched_setaffinity"):
+        try:
+            cpus = sorted(os.sched_getaffinity(0))
+            with counter.get_lock():
+                i = counter.value
+                counter.value += 1
+            os.sched_setaffinity(0, {cpus[i % len(cpus)]})
+        except Exception:
+            pass
     os.environ.setdefault("JAX_PLATFORMS", "cpu")
     os.environ["XLA_FLAGS"] = (
         os.environ.get("XLA_FLAGS", "")
@@ -314,8 +325,9 @@ def run_units(prop: str, units, jobs: int, x64: bool = True, progress=True):
             results.append(_run_unit((prop, u)))
         return results
     ctx = mp.get_context("spawn")
+    counter = ctx.Value("i", 0)
     with cf.ProcessPoolExecutor(
-        max_workers=min(jobs, len(units)), mp_context=ctx, initializer=_worker_init, initargs=(x64,)
+        max_workers=min(jobs, len(units)), mp_context=ctx, initializer=_worker_init, initargs=(x64, counter)
     ) as ex:
         futs = [ex.submit(_run_unit, (prop, u)) for u in units]
         done = 0
